@@ -13,7 +13,7 @@ use serde::{Deserialize, Serialize};
 use std::collections::BTreeMap;
 use std::time::Instant;
 
-pub const RULE: &str = "cases = one accepted graph + kinematics, 4 x-space points and a history of 1..40 operations on a shared sampler: SampleX(point, return_metadata, print_debug_info, stability None/Some(1e300)), SampleRng(seed, flags), SampleNear(point with one coordinate moved by 1..8 ulps, flags), UseClone, UseSerdeCopy (continue with a JSON round-tripped copy), Rebuild (continue with a sampler built again from the same graph), Burst(t<=8 threads x m<=6 samples on the shared sampler). model = map (point, stability setting) -> first observed bit pattern of (loop_momenta,u,v,u_trop,v_trop,jacobian | error kind); invariant after every step: every observation equals the model, for all combinations of return_metadata x print_debug_info. generate_sample_from_rng: the rng is cloned, get_dimension() numbers are drawn from the clone, the result must equal the x-space call on those numbers and both rngs must be in the same state afterwards. cross-process: the same graphs/points are sampled in a freshly started process (different hash seeds) and compared bit for bit. non-trivial = history with >= 2 distinct flag settings and a thread burst; distinct = distinct case encodings";
+pub const RULE: &str = "cases = one accepted graph + kinematics, 4 x-space points and a history of 1..40 operations on a shared sampler: SampleX(point, return_metadata, print_debug_info, stability None/Some(1e300)), SampleRng(seed, flags), SampleNear(point with one coordinate moved by 1..8 ulps, flags), UseClone, UseSerdeCopy (continue with a JSON round-tripped copy), Rebuild (continue with a sampler built again from the same graph), SampleStrict (stability tolerance 1e-18: the error path), SampleOther (same point, other masses/shifts), Aux (a different sampler sampled in between), Burst(t<=8 threads x m<=6 samples on the shared sampler). model = map (point, stability setting) -> first observed bit pattern of (loop_momenta,u,v,u_trop,v_trop,jacobian | error kind); invariant after every step: every observation equals the model, for all combinations of return_metadata x print_debug_info. generate_sample_from_rng: the rng is cloned, get_dimension() numbers are drawn from the clone, the result must equal the x-space call on those numbers and both rngs must be in the same state afterwards. cross-process: the same graphs/points are sampled in a freshly started process (different hash seeds) and compared bit for bit. non-trivial = history with >= 2 distinct flag settings and a thread burst; distinct = distinct case encodings";
 
 #[derive(Clone, Debug, Serialize, Deserialize)]
 pub enum Op {
@@ -26,6 +26,12 @@ pub enum Op {
     UseSerdeCopy,
     /// continue with a sampler built again from the same graph (fresh hash seeds, as another process would)
     Rebuild,
+    /// same point, stability test with a tolerance that fails (1e-18): the error path
+    SampleStrict { pt: usize, meta: bool, debug: bool },
+    /// same point, same sampler, OTHER edge data (masses x1.5, shifts halved and displaced)
+    SampleOther { pt: usize, meta: bool, debug: bool },
+    /// a different sampler (massive bubble in the same dimension) sampled in between
+    Aux { pt: usize, meta: bool, debug: bool },
     Burst { threads: usize, per: usize, meta: bool, debug: bool },
 }
 #[derive(Clone, Debug, Serialize, Deserialize)]
@@ -42,8 +48,13 @@ pub fn gen_case(t: &mut Tape, tier: Tier) -> Option<Case> {
     let points: Vec<Vec<f64>> = (0..4).map(|i| if i == 0 { p.x.clone() } else { gen::gen_point(t, &p.g, if i == 3 { &gen::CORNERS } else { &gen::MODERATE }).0 }).collect();
     let n = t.range(1, 40);
     let ops = (0..n)
-        .map(|_| match t.weighted(&[0.4, 0.13, 0.07, 0.06, 0.17, 0.17, 0.08]) {
+        .map(|_| match t.weighted(&[0.34, 0.11, 0.06, 0.05, 0.15, 0.14, 0.06, 0.09]) {
             6 => Op::Rebuild,
+            7 => match t.below(3) {
+                0 => Op::SampleStrict { pt: t.below(4), meta: t.bool(), debug: t.bool() },
+                1 => Op::SampleOther { pt: t.below(4), meta: t.bool(), debug: t.bool() },
+                _ => Op::Aux { pt: t.below(4), meta: t.bool(), debug: t.bool() },
+            },
             5 => {
                 let dim = gen::dimension(&p.g);
                 // half of the time the gamma coordinate (the one scalar routine with its own iteration), else any
@@ -79,9 +90,37 @@ fn result_bits<const D: usize>(s: &SampleGenerator<D>, p: &Phys, x: &[f64], meta
     }
 }
 
+/// variants of a sampling call that must each be a pure function of their own arguments:
+/// 0 = strict stability tolerance, 1 = other edge data, 2 = auxiliary sampler
+fn variant_bits<const D: usize>(s: &SampleGenerator<D>, aux: &SampleGenerator<D>, p: &Phys, x: &[f64], variant: u8, meta: bool, debug: bool) -> Vec<u64> {
+    let g = &p.g;
+    let r = match variant {
+        0 => sut::sample_f64(s, x, sut::edge_data::<D>(&g.massive, &p.kin.masses, &p.kin.shifts), Some(1e-18), debug, meta),
+        1 => {
+            let m2: Vec<f64> = p.kin.masses.iter().map(|m| m * 1.5).collect();
+            let s2: Vec<Vec<f64>> = p.kin.shifts.iter().map(|v| v.iter().map(|c| c * 0.5 + 0.125).collect()).collect();
+            sut::sample_f64(s, x, sut::edge_data::<D>(&g.massive, &m2, &s2), None, debug, meta)
+        }
+        _ => {
+            let xa: Vec<f64> = (0..aux.get_dimension()).map(|i| x[i % x.len()]).collect();
+            sut::sample_f64(aux, &xa, sut::edge_data::<D>(&[true, true], &[1.0, 0.7], &[vec![0.25; D], vec![0.0; D]]), None, debug, meta)
+        }
+    };
+    match r {
+        Ok(o) => o.bits(),
+        Err(e) => full_bits(&Err(e)),
+    }
+}
+
 fn check_d<const D: usize>(c: &Case, ctx: &mut Ctx) -> Result<(), Failure> {
     let p = &c.p;
     let g = &p.g;
+    let aux_graph = crate::oracle::graph::G { edges: vec![(0, 1), (1, 0)], massive: vec![true, true], weights: vec![D as f64 / 2.0 + 0.25, 0.75], externals: vec![0, 1], d: D };
+    let aux = match sut::build::<D>(&aux_graph, vec![vec![1], vec![-1]]) {
+        Ok(s) => s,
+        Err(e) => fail!("aux-build", "auxiliary bubble rejected: {e:?}"),
+    };
+    let mut var_model: BTreeMap<(u8, usize), Vec<u64>> = BTreeMap::new();
     let orig = match sut::build::<D>(g, p.kin.sig.clone()) {
         Ok(s) => s,
         Err(BuildErr::Rejected(_)) | Err(BuildErr::Panic(_)) => {
@@ -153,6 +192,22 @@ fn check_d<const D: usize>(c: &Case, ctx: &mut Ctx) -> Result<(), Failure> {
             Op::UseClone => {
                 cur = cur.clone();
             }
+            Op::SampleStrict { pt, meta, debug } | Op::SampleOther { pt, meta, debug } | Op::Aux { pt, meta, debug } => {
+                let variant = match op {
+                    Op::SampleStrict { .. } => 0u8,
+                    Op::SampleOther { .. } => 1,
+                    _ => 2,
+                };
+                settings_seen.insert((*meta, *debug, variant == 0));
+                let got = variant_bits::<D>(&cur, &aux, p, &c.points[*pt], variant, *meta, *debug);
+                if got == vec![0xE004] {
+                    fail!("sample-panic", "step {step} ({op:?}): sampling panicked; case {c:?}");
+                }
+                let e = var_model.entry((variant, *pt)).or_insert_with(|| got.clone());
+                if *e != got {
+                    fail!("history-dependence", "step {step} ({op:?}): the same call (variant {variant}: 0 strict tolerance, 1 other edge data, 2 auxiliary sampler) gave a different result than before; case {c:?}");
+                }
+            }
             Op::Rebuild => {
                 cur = match sut::build::<D>(g, p.kin.sig.clone()) {
                     Ok(s) => s,
@@ -209,6 +264,17 @@ fn check_d<const D: usize>(c: &Case, ctx: &mut Ctx) -> Result<(), Failure> {
             }
         }
     }
+    for ((variant, pt), want) in &var_model {
+        for meta in [false, true] {
+            for debug in [false, true] {
+                let _ = result_bits::<D>(&orig, p, &c.points[(*pt + 1) % 4], false, false, false);
+                let got = variant_bits::<D>(&orig, &aux, p, &c.points[*pt], *variant, meta, debug);
+                if &got != want {
+                    fail!("history-dependence", "variant {variant} of point {pt} with return_metadata={meta} print_debug_info={debug} differs from its first observation; case {c:?}");
+                }
+            }
+        }
+    }
     // neighbours once more, on the original sampler, each preceded by an unrelated point
     for (x, want) in near_model.values() {
         let _ = result_bits::<D>(&orig, p, &c.points[3], false, false, false);
@@ -229,7 +295,7 @@ pub fn check(c: &Case, ctx: &mut Ctx) -> Result<(), Failure> {
     if c.points.len() != 4 || c.points.iter().any(|x| x.len() < dim || x.iter().any(|v| !(v.is_finite() && *v >= 0.0 && *v < 1.0))) {
         fail!("bad-case", "needs 4 points in [0,1)^dim");
     }
-    if c.ops.iter().any(|o| matches!(o, Op::SampleNear { pt, ulps, .. } if *pt >= 4 || ulps.abs() > 64) || matches!(o, Op::SampleX { pt, .. } if *pt >= 4) || matches!(o, Op::Burst { threads, per, .. } if *threads > 16 || *per > 16)) {
+    if c.ops.iter().any(|o| matches!(o, Op::SampleNear { pt, ulps, .. } if *pt >= 4 || ulps.abs() > 64) || matches!(o, Op::SampleStrict { pt, .. } | Op::SampleOther { pt, .. } | Op::Aux { pt, .. } if *pt >= 4) || matches!(o, Op::SampleX { pt, .. } if *pt >= 4) || matches!(o, Op::Burst { threads, per, .. } if *threads > 16 || *per > 16)) {
         fail!("bad-case", "operation out of range");
     }
     with_d!(c.p.g.d, check_d(c, ctx))
